@@ -162,6 +162,10 @@ func main() {
 			pi := pi
 			if mon.Selected(pi.pkg) || mon.Selected(pi.id.String()) {
 				tasks = append(tasks, task{pi.pkg, func() { specP2(c, pi); specRegistry(c, pi.id, pi.bytes*pi.defT/2) }})
+				for _, ps := range pi.paramSets(c.Thorough()) {
+					ps := ps
+					tasks = append(tasks, task{pi.pkg, func() { specP2Param(c, pi, ps) }})
+				}
 			}
 		}
 		tasks = append(tasks, task{"field/koalabear/vortex", func() { specVortex(c) }})
@@ -227,7 +231,12 @@ func main() {
 		for _, si := range sisInsts {
 			si := si
 			if mon.Selected(si.pkg) {
-				tasks = append(tasks, task{si.pkg, func() { si.run(&sisEnv{c}) }})
+				for _, lb := range []int{8, 16, 32, 64} {
+					for half := 0; half < 2; half++ {
+						lb, half := lb, half
+						tasks = append(tasks, task{si.pkg, func() { si.run(&sisEnv{c: c, lb: lb, half: half}) }})
+					}
+				}
 			}
 		}
 	}
